@@ -119,7 +119,68 @@ def poly(t, atom_map=None):
     return Poly.atom(t)
 
 
+_FLOAT_CALLS = ("Fragment::", "f64::")
+
+
+def _has_float_marker(t, depth=0):
+    if not isinstance(t, tuple) or not t or depth > 40:
+        return False
+    if t[0] == "float":
+        return True
+    if t[0] == "cast" and t[1] in ("IntToFloat", "FloatToFloat"):
+        return True
+    if t[0] in ("call", "callm") and isinstance(t[1], str) and t[1].startswith(_FLOAT_CALLS):
+        return True
+    return any(_has_float_marker(x, depth + 1) for x in t if isinstance(x, tuple))
+
+
+def is_int_poly(p):
+    """No atom of the polynomial is (or contains) a floating point quantity."""
+    return not any(_has_float_marker(a) for a in p.atoms())
+
+
+def canon(kind, p):
+    """Canonical comparison normal form.  For integer (unsigned) polynomials:
+    p > 0 becomes p - 1 >= 0; x == 0 / x != 0 for a single unsigned atom x become
+    -x >= 0 / x - 1 >= 0; eq0/ne0 get a canonical sign."""
+    if kind in ("eq0", "ne0"):
+        if p.m:
+            first = sorted(p.m.items(), key=lambda kv: repr(kv[0]))[0]
+            if first[1] < 0:
+                p = -p
+    if not is_int_poly(p):
+        return (kind, p)
+    if kind == "gt0":
+        return ("ge0", p - Poly.const(1))
+    if kind in ("eq0", "ne0"):
+        items = list(p.m.items())
+        if len(items) == 1 and len(items[0][0]) == 1 and abs(items[0][1]) == 1:
+            x = Poly({items[0][0]: Fraction(1)})
+            return ("ge0", -x) if kind == "eq0" else ("ge0", x - Poly.const(1))
+    return (kind, p)
+
+
+def GT0(p):
+    return canon("gt0", p)
+
+
+def GE0(p):
+    return canon("ge0", p)
+
+
+def EQ0(p):
+    return canon("eq0", p)
+
+
+def NE0(p):
+    return canon("ne0", p)
+
+
 def cmp_nf(op, a, b, atom_map=None):
+    return canon(*_cmp_nf_raw(op, a, b, atom_map))
+
+
+def _cmp_nf_raw(op, a, b, atom_map=None):
     """Normal form of a comparison: ('gt0'|'ge0'|'eq0', Poly) with a canonical sign
     for eq0.  a > b  ->  gt0(a-b);  a < b -> gt0(b-a); a >= b -> ge0(a-b) ..."""
     pa, pb = poly(a, atom_map), poly(b, atom_map)
@@ -145,18 +206,21 @@ def cmp_nf(op, a, b, atom_map=None):
 def negate_cmp(nf):
     k, p = nf
     if k == "gt0":
-        return ("ge0", -p)
+        return canon("ge0", -p)
     if k == "ge0":
-        return ("gt0", -p)
+        return canon("gt0", -p)
     if k == "eq0":
-        return ("ne0", p)
-    return ("eq0", p)
+        return canon("ne0", p)
+    return canon("eq0", p)
 
 
 def fact_nf(fact, atom_map=None):
     """Normal form of a pred.py fact ((atom, polarity))."""
     atom, pol = fact
     if atom[0] == "cmp":
-        nf = cmp_nf(atom[1], atom[2], atom[3], atom_map)
-        return nf if pol else negate_cmp(nf)
+        raw = _cmp_nf_raw(atom[1], atom[2], atom[3], atom_map)
+        if pol:
+            return canon(*raw)
+        k, p = raw
+        return canon(*{"gt0": ("ge0", -p), "ge0": ("gt0", -p), "eq0": ("ne0", p), "ne0": ("eq0", p)}[k])
     return (atom, pol)
